@@ -352,6 +352,12 @@ def run_shard(spec):
                 check_string(rec, gen.SEP.join(pieces),
                              rng.choice([16, 16, 1, 2, 17]))
         rec.extra['exhaustive'] = True
+    if spec.get('shard', 0) == 0 or spec.get('part', 0) == 0:
+        # form bodies with several fields: the body is the FIRST d field
+        for s in ['d=4a&d=4b', 'd=4a&x=1', 'x=1&d=4a', 'd=4a%1E4b&d=6',
+                  'd=&d=4a', 'd=4a&d=', 'd==', 'd=4%26x&d=5', 'dd=4a',
+                  'd=4a;d=4b']:
+            check_string(rec, s, 16, forms=False)
     _state['rec'] = None
     return rec.result()
 
